@@ -19,6 +19,12 @@ RULE = ("for each of 15 request shapes (v5) and 3 (v1) and every exchange index 
         "order of transport events: close of the old handle, enumerate/open, the four bring-up "
         "exchanges, only then command APDUs on the new handle. distinct = (shape, k, fault "
         "kind, follow-up, j, variant) cells; all non-trivial")
+RULE_ADDED = (
+              'Also: faults late in a repair that goes through the bootloader; time-outs as second '
+              'faults; a re-open that finds no device inside the repair; a `version` request in '
+              'between; the early-success and heartbeat-ends-elsewhere shapes; a third of the cases '
+              'with --iodebug ')
+RULE = RULE + " " + RULE_ADDED.strip()
 ASSUMPTIONS = [
     "fault kinds are those of the HID transport (write() < 0, read error, time-out) as the "
     "property quantifies; a dropped TCP link surfaces as another exception class and is not judged",
